@@ -8,6 +8,7 @@ import (
 	"path/filepath"
 	"strings"
 	"time"
+	"unsafe"
 
 	"github.com/couchbase/moss"
 )
@@ -41,6 +42,8 @@ type Dims struct {
 	IndexMinKeyBytes int      `json:"indexMinKeyBytes"` // StoreOptions.SegmentKeysIndexMinKeyBytes (default 10 MB: no key index on small segments)
 	IndexMaxBytes    int      `json:"indexMaxBytes"`    // StoreOptions.SegmentKeysIndexMaxBytes
 	NoEpilogue       bool     `json:"noEpilogue"`       // skip the idle rounds after the last step
+	CopyCheck        bool     `json:"copyCheck"`        // C10: values returned by copying Gets are kept and must be intact, and outside every mapping of the store, once everything is closed
+	MergeAlias       bool     `json:"mergeAlias"`       // merge operator that hands back existingValue itself when the operands change nothing (concretisation "aliasmerge")
 	DiskCheck        bool     `json:"diskCheck"`        // after every persistence round: copy the directory, open the copy, compare with the model's store
 	Seed             int64    `json:"seed"`
 }
@@ -119,7 +122,8 @@ type Session struct {
 	store            *moss.Store
 	app              *AppStore
 	dir              string
-	merge            *moss.MergeOperatorStringAppend
+	merge            moss.MergeOperator
+	kept             []keptCopy // results of copying Gets (CopyCheck)
 	snaps            map[int]moss.Snapshot
 	onErr            int
 	policyDiverged   bool // the implementation chose another merge level than the behaviour
@@ -148,6 +152,9 @@ func NewSession(d Dims) *Session {
 	}
 	s.C = MakeConcr(d)
 	s.merge = &moss.MergeOperatorStringAppend{Sep: s.C.Sep}
+	if d.MergeAlias {
+		s.merge = &aliasAppend{Sep: s.C.Sep}
+	}
 	return s
 }
 
@@ -881,7 +888,10 @@ func (s *Session) Observe(idx int, st Step, full bool) StepResult {
 				got, err := s.coll.Get(kb, moss.ReadOptions{NoCopyValue: nc})
 				if err != nil {
 					r.Mismatches = append(r.Mismatches, Mismatch{What: "coll.get.err", Key: i + 1, Got: err.Error(), Want: show(want)})
-				} else if !sameBytes(got, want) {
+				} else if !nc && sameBytes(got, want) {
+					s.keep("coll.get", i+1, got)
+				}
+				if err == nil && !sameBytes(got, want) {
 					pred := ""
 					if i < len(exp.Dg) {
 						pred = show(s.C.Bytes(exp.Dg[i]))
@@ -1364,6 +1374,12 @@ func (s *Session) injectUpdateFailure() {
 // finalLeakCheck closes whatever the behaviour left open, in the order chosen
 // by the dimensions, and then checks that nothing of the directory is held.
 func (s *Session) finalLeakCheck() []Mismatch {
+	s.closeEverything()
+	return s.leakCheck()
+}
+
+// closeEverything closes whatever the behaviour left open (idempotent).
+func (s *Session) closeEverything() {
 	closeSnaps := func() {
 		for id, ss := range s.snaps {
 			ss.Close()
@@ -1407,7 +1423,108 @@ func (s *Session) finalLeakCheck() []Mismatch {
 		closeSnaps()
 		closeColl()
 	}
-	return s.leakCheck()
+}
+
+// keptCopy is a value a copying Get returned (C10: it must stay intact after the
+// snapshot, the collection and the store are closed).
+type keptCopy struct {
+	what string
+	key  int
+	b    []byte
+	want string
+}
+
+func (s *Session) keep(what string, key int, b []byte) {
+	if !s.D.CopyCheck || len(b) == 0 || len(b) > 1<<16 || len(s.kept) >= 2048 {
+		return
+	}
+	s.kept = append(s.kept, keptCopy{what, key, b, string(b)})
+}
+
+// storeMappings lists the address ranges of this process that map files of the store directory.
+func storeMappings(dir string) (out [][2]uintptr) {
+	b, err := ioutil.ReadFile("/proc/self/maps")
+	if err != nil || dir == "" {
+		return
+	}
+	for _, line := range strings.Split(string(b), "\n") {
+		if !strings.Contains(line, dir+"/") {
+			continue
+		}
+		var lo, hi uintptr
+		if _, err := fmt.Sscanf(line, "%x-%x", &lo, &hi); err == nil {
+			out = append(out, [2]uintptr{lo, hi})
+		}
+	}
+	return
+}
+
+// checkKeptMapped: a value returned by a copying Get must not lie inside a mapping of a
+// data file (it would die with the mapping).  Called while everything is still open.
+func (s *Session) checkKeptMapped() (out []Mismatch) {
+	if len(s.kept) == 0 {
+		return
+	}
+	maps := storeMappings(s.dir)
+	seen := map[string]bool{}
+	for _, k := range s.kept {
+		a := uintptr(unsafe.Pointer(&k.b[0]))
+		for _, m := range maps {
+			if a >= m[0] && a < m[1] && !seen[k.what+fmt.Sprint(k.key)] {
+				seen[k.what+fmt.Sprint(k.key)] = true
+				out = append(out, Mismatch{What: "coll.get.copy.mapped", Key: k.key, Got: fmt.Sprintf("%s returned a slice inside a mapping of the data file (%s)", k.what, show([]byte(k.want))), Want: "a private copy"})
+			}
+		}
+	}
+	return
+}
+
+// checkKeptAfterClose: once everything is closed every kept value still reads as it did.
+func (s *Session) checkKeptAfterClose() (out []Mismatch) {
+	seen := map[string]bool{}
+	for _, k := range s.kept {
+		k := k
+		var got string
+		err := safely(func() error { got = string(k.b); return nil })
+		id := k.what + fmt.Sprint(k.key)
+		if seen[id] {
+			continue
+		}
+		if err != nil {
+			seen[id] = true
+			out = append(out, Mismatch{What: "coll.get.copy.afterclose", Key: k.key, Got: fmt.Sprintf("%s: reading the value after closing everything: %v", k.what, err), Want: show([]byte(k.want))})
+		} else if got != k.want {
+			seen[id] = true
+			out = append(out, Mismatch{What: "coll.get.copy.afterclose", Key: k.key, Got: fmt.Sprintf("%s: %s", k.what, show([]byte(got))), Want: show([]byte(k.want))})
+		}
+	}
+	return
+}
+
+// aliasAppend is the string-append merge operator, except that it hands back
+// existingValue itself (no copy) when the operands change nothing -- which a merge
+// operator may do (a maximum, a saturating counter, set-if-absent).
+type aliasAppend struct{ Sep string }
+
+func (mo *aliasAppend) Name() string { return "aliasAppend" }
+func (mo *aliasAppend) FullMerge(key, existingValue []byte, operands [][]byte) ([]byte, bool) {
+	same := existingValue != nil && mo.Sep == ""
+	for _, o := range operands {
+		if len(o) > 0 {
+			same = false
+		}
+	}
+	if same {
+		return existingValue, true
+	}
+	x := string(existingValue)
+	for _, o := range operands {
+		x = x + mo.Sep + string(o)
+	}
+	return []byte(x), true
+}
+func (mo *aliasAppend) PartialMerge(key, l, r []byte) ([]byte, bool) {
+	return []byte(string(l) + mo.Sep + string(r)), true
 }
 
 // countCompactions counts the store.compact.swap events of a scheduler by kind.
@@ -1429,6 +1546,11 @@ func Replay(id int, d Dims, steps []Step) (res Result) {
 	res.ID = id
 	s := NewSession(d)
 	defer s.Teardown()
+	keepHook = nil
+	if d.CopyCheck {
+		keepHook = s.keep
+		defer func() { keepHook = nil }()
+	}
 	if err := s.Open(); err != nil {
 		res.Status, res.Infra = "infra", "open: "+err.Error()
 		return
@@ -1481,6 +1603,15 @@ func Replay(id int, d Dims, steps []Step) (res Result) {
 	if !bad && len(steps) > 0 && s.life == "open" && s.coll != nil && d.Mode != "mem" && !d.NoEpilogue {
 		if sr := s.epilogue(len(steps), steps[len(steps)-1]); len(sr.Mismatches) > 0 {
 			res.Steps = append(res.Steps, sr)
+			bad = true
+		}
+	}
+	if d.CopyCheck {
+		mm := s.checkKeptMapped()
+		s.closeEverything()
+		mm = append(mm, s.checkKeptAfterClose()...)
+		if len(mm) > 0 {
+			res.Steps = append(res.Steps, StepResult{Step: len(steps), Act: "CloseEverything", Mismatches: mm})
 			bad = true
 		}
 	}
